@@ -229,11 +229,11 @@ def environ_digest_view(snap: Any, body_read: Any) -> Any:
 # ---------------------------------------------------------------------------------------------
 # WSGI application shapes: what the client must see
 
-OK_KINDS = ("list", "gen_eager", "gen_lazy", "iter_close", "iter_close_lazy", "twice_excinfo")
+OK_KINDS = ("list", "gen_eager", "gen_lazy", "iter_close", "iter_close_lazy", "iterable_close", "twice_excinfo")
 ERROR_KINDS = ("raise_before_sr", "raise_after_sr", "raise_mid_gen", "raise_mid_iter_close", "raise_lazy_first",
                "no_sr_list", "no_sr_iter_close")
 # kinds whose returned iterable is an object with a counted close() method
-CLOSEABLE_KINDS = ("iter_close", "iter_close_lazy", "raise_mid_iter_close", "no_sr_iter_close")
+CLOSEABLE_KINDS = ("iter_close", "iter_close_lazy", "iterable_close", "raise_mid_iter_close", "no_sr_iter_close")
 # kinds that never call start_response
 NO_SR_KINDS = ("raise_before_sr", "raise_lazy_first", "no_sr_list", "no_sr_iter_close")
 EXCINFO_STATUS = "500 Internal Server Error"
